@@ -964,3 +964,89 @@ def rf16l(run):
                           'importers in other modules do not bind to this definition (%s)'
                           % ('; '.join(names[k_] for k_ in seq), 'rejected with an error' if err else 'without export_p', ' | '.join(trace)), line=f.line)
     run.min_instances(rule, 6)
+
+
+# ---------------------------------------------------------------------------------------------
+# RF66: the generator writes only engine-private fields of the program's descriptors
+# ---------------------------------------------------------------------------------------------
+GEN_PRIVATE_FIELDS = {
+    # field: why the generator may store into it
+    'data': 'MIR_item_t.data: per-engine scratch pointer (the function CFG / stub table)',
+    'call_addr': 'MIR_func.call_addr: address called by other generated code',
+    'machine_code': 'MIR_func.machine_code: address of the generated code',
+}
+PROGRAM_STRUCTS = ('MIR_func', 'MIR_var', 'MIR_proto', 'MIR_item', 'MIR_module', 'MIR_data', 'MIR_ref_data', 'MIR_lref_data',
+                   'MIR_expr_data', 'MIR_bss')
+
+
+def rf66(run):
+    import re
+    rule = 'RF66'
+    run.rule(rule, 'code generation leaves the program descriptors alone: in mir-gen.c and the target file every store whose destination is a '
+                   'field of a function, variable (func->vars element), prototype, item, module or data descriptor writes one of the '
+                   'engine-private fields {data, call_addr, machine_code}; parameter / variable descriptions (type, name, size), result '
+                   'types, counts and flags are what MIR_output, the interpreter and the inliner read after generation and are not '
+                   'covered by _MIR_restore_func_insns')
+    tu = run.tu('gen')
+    PS = re.compile(r'\b(struct )?(%s)(_t)?\b' % '|'.join(PROGRAM_STRUCTS))
+    n = 0
+    for f in tu.func_list:
+        if not (f.file.endswith('mir-gen.c') or re.search(r'mir-gen-\w+\.c$', f.file)):
+            continue
+        for x in f.walk():
+            l = None
+            if x['k'] in ('BinaryOperator', 'CompoundAssignOperator') and x['op'].endswith('=') and x['op'] not in ('==', '!=', '<=', '>='):
+                l = F.strip(x['c'][0])
+            elif x['k'] == 'UnaryOperator' and x['op'] in ('++', '--'):
+                l = F.strip(x['c'][0])
+            if l is None:
+                continue
+            # the object written: follow `.field` and `[i]` inward (same object); an `->field` writes into the pointee of its base;
+            # a leading `*p` writes into the pointee of p.  Pointers read on the way (a->b in a->b->c) are not destinations.
+            e = l
+            hit = None
+            first_field = None
+            while True:
+                if e['k'] == 'ParenExpr' or e['k'] in F.CASTS:
+                    e = e['c'][0]
+                    continue
+                if e['k'] == 'MemberExpr':
+                    bt = tu.type(F.strip(e['c'][0]))
+                    s_ = bt.s if bt else ''
+                    if e.get('arrow'):
+                        if PS.search(s_) and 'MIR_insn' not in s_:
+                            hit = (e['n'], s_)
+                        break
+                    # `.field` of a struct value: the same object as its base; a local copy (MIR_var_t var; var.size = …) is not
+                    # part of the program
+                    if PS.search(s_) and 'MIR_insn' not in s_ and first_field is None:
+                        first_field = e['n']
+                    e = e['c'][0]
+                    continue
+                if e['k'] == 'ArraySubscriptExpr':
+                    bt = tu.type(F.strip(e['c'][0]))
+                    if bt is not None and bt.kind == 'array':
+                        e = e['c'][0]
+                        continue
+                    # element of a pointed-to array: the pointee type decides
+                    if bt is not None and PS.search(bt.s) and 'MIR_insn' not in bt.s:
+                        hit = (first_field or '[]', bt.s)
+                    break
+                if e['k'] == 'UnaryOperator' and e['op'] == '*':
+                    bt = tu.type(F.strip(e['c'][0]))
+                    if bt is not None and PS.search(bt.s) and 'MIR_insn' not in bt.s and bt.kind == 'pointer':
+                        hit = (first_field or '*', bt.s)
+                    break
+                break
+            if hit is None:
+                continue
+            run.functions_analysed.add(('gen', f.name))
+            n += 1
+            ok = hit[0] in GEN_PRIVATE_FIELDS
+            run.ob(rule, (f.name, x['l']), ok, {'site': '%s:%d %s' % (f.relfile(), x['l'], f.name), 'store': F.src(l)[:60], 'descriptor': hit[1],
+                                               'field': hit[0], 'why allowed': GEN_PRIVATE_FIELDS.get(hit[0])})
+            if not ok:
+                run.violation(rule, f, 'store into %s of %s' % (hit[0], hit[1]), 'the generator stores into `%s` (field %s of %s): this is part of '
+                              'the MIR program as seen through the API and is not restored after generation, so the function prints / is '
+                              'interpreted / is inlined differently afterwards' % (F.src(l)[:70], hit[0], hit[1]), line=x['l'])
+    return n
